@@ -244,7 +244,7 @@ func (s *Scope) Set(sym Symbol, value Object) {
 	}
 	if pkg, name, private := UnpackName(string(sym)); pkg != nil {
 		if vv := pkg.GetVarVal(name); vv != nil && (vv.Export || private) {
-			pkg.Set(name, value)
+			pkg.Set(name, value, private)
 		}
 		return
 	}
